@@ -120,13 +120,19 @@ def strat_padcrop2d(tier):
         'a': st.tuples(ax, ax).map(list), 'b': st.tuples(ax, ax).map(list),
         'mode': st.sampled_from(MODES), 'fill': st.sampled_from([0, 0, 1.5, -3]),
         'via': st.sampled_from(['function', 'wavefront', 'wavefront-copy', 'scalar-out', 'Q']),
-        'dtype': st.sampled_from(['float64', 'complex128', 'float32', 'int64']),
-        'Q': st.sampled_from([1, 1.5, 2, 3, 1.25, 2.5]),
+        # integer data whose values need every bit of the type (raw counts, packed flags): padding and cropping only move samples
+        'dtype': st.sampled_from(['float64', 'complex128', 'float32', 'int64', 'int64-huge', 'uint64-huge', 'int32-big', 'uint8', 'bool']),
+        'Q': st.sampled_from([1, 1.5, 2, 3, 1.25, 2.5]), 'prec': st.sampled_from([64, 64, 32]),
     })
 
 
 def check_padcrop2d(case, ctx):
     """2-D pad then crop with independent axes, through fttools and Wavefront; model offsets per axis."""
+    with U.precision(case.get('prec', 64)):
+        _check_padcrop2d(case, ctx)
+
+
+def _check_padcrop2d(case, ctx):
     from prysm.fttools import pad2d, crop_center
     from prysm.propagation import Wavefront
     import math
@@ -140,19 +146,35 @@ def check_padcrop2d(case, ctx):
         big = [math.ceil(s * case['Q']) for s in small]
     if mode == 'reflect' and any(s == 1 and g > 1 for s, g in zip(small, big)):
         ctx.exclude('np.pad reflect undefined for length-1 axis')
-    if via in ('wavefront', 'wavefront-copy') and case['dtype'] == 'int64':
+    INTS = {'int64': (np.int64, 0), 'int64-huge': (np.int64, 2 ** 62), 'uint64-huge': (np.uint64, 2 ** 63), 'int32-big': (np.int32, 2 ** 30), 'uint8': (np.uint8, 0),
+            'bool': (np.bool_, 0)}
+    if via in ('wavefront', 'wavefront-copy') and case['dtype'] in INTS:
         dtype = 'float64'
     else:
         dtype = case['dtype']
-    if mode == 'mean' and dtype == 'int64':
+    if mode == 'mean' and dtype in INTS:
         dtype = 'float64'
+    if dtype in INTS and (mode != 'constant' or via == 'Q') and dtype != 'int64':
+        dtype = 'int64'          # the wide / narrow integer classes go through the default constant mode with an explicit output shape
+    if dtype in INTS:
+        ctx.label('dtype:' + dtype, 'config.precision=%d' % case.get('prec', 64))
     parity_mix = any(s % 2 != g % 2 for s, g in zip(small, big))
     ctx.nt(parity_mix or any(s % 2 for s in small) or fill != 0 or mode != 'constant')
     ctx.label('via:' + via, 'mode:' + mode, 'paritymix' if parity_mix else 'parity-same',
               'square' if small[0] == small[1] else 'nonsquare')
-    if dtype == 'int64' and fill == 1.5:
+    if dtype in INTS and fill == 1.5:
         fill = 2
-    a = _marker(small).astype(dtype)
+    if dtype in INTS and dtype != 'int64':
+        fill = 0 if dtype != 'bool' else False
+        npdt, off = INTS[dtype]
+        if dtype == 'bool':
+            a = (_marker(small) % 3 > 0)
+        elif dtype == 'uint8':
+            a = (_marker(small) % 251).astype(np.uint8)
+        else:
+            a = _marker(small).astype(npdt) + npdt(off)
+    else:
+        a = _marker(small).astype(INTS[dtype][0] if dtype in INTS else dtype)
     if dtype == 'complex128':
         a = a + 1j * _marker(small)[::-1, ::-1]
     kw = {'value': fill} if mode == 'constant' else {'mode': mode}
@@ -170,6 +192,8 @@ def check_padcrop2d(case, ctx):
             U.check_equal(w.data, a, 'Wavefront.pad2d:mutated', 'inplace=False modified the source wavefront')
             ctx.require(w2.dx == w.dx, 'Wavefront.pad2d:dx', 'padding changed dx')
     U.check_shape(out, big, 'pad2d')
+    if dtype in INTS:
+        ctx.require(np.asarray(out).dtype == a.dtype, 'pad2d:integer-data:dtype', 'padding %s data with %r returned %s' % (a.dtype, fill, np.asarray(out).dtype))
     oy, ox = (g // 2 - s // 2 for s, g in zip(small, big))
     bucket = 'pad2d:' + ','.join('%s->%s' % (('even', 'odd')[s % 2], ('even', 'odd')[g % 2]) for s, g in zip(small, big))
     U.check_equal(out[oy:oy + small[0], ox:ox + small[1]], a, bucket + ':interior',
@@ -354,7 +378,7 @@ def strat_fresh(tier):
     ax = U.axis_len({'quick': 24, 'thorough': 64}[tier])
     return st.fixed_dictionaries({'shape': st.one_of(st.tuples(ax, ax).map(list), ax.map(lambda k: [k, k])),
                                   'dx': st.sampled_from([1.0, 0.1, 0.37, 2.5]), 'grid': st.booleans(),
-                                  'how': st.sampled_from(['add', 'scale', 'zero']), 'prec': st.sampled_from([64, 64, 32])})
+                                  'how': st.sampled_from(['add', 'scale', 'zero']), 'prec': st.sampled_from([64, 64, 32]), 'consumer': st.booleans()})
 
 
 def check_fresh(case, ctx):
@@ -369,6 +393,11 @@ def check_fresh(case, ctx):
         x, y = ctx.call(make_xy_grid, shape, dx=dx, grid=grid)
         x = np.asarray(x)
         y = np.asarray(y)
+        # the two returned arrays are two coordinate arrays: editing one in place does not move the other
+        y_kept = y.copy()
+        x += 0.25 * dx
+        U.check_equal(y, y_kept, 'make_xy_grid:x-and-y-share-memory', 'y changed when the caller edited x in place (shape %s, grid=%r)' % (shape, grid))
+        x -= 0.25 * dx
         if how == 'add':
             x += dx / 2
             y -= 3 * dx
@@ -385,6 +414,34 @@ def check_fresh(case, ctx):
             wx, wy = np.broadcast_to(wx, shape), np.broadcast_to(wy[:, None], shape)
         U.check_close(x2, wx, rt, 'make_xy_grid:aliased-state', 'x after an earlier caller modified its own copy in place (%s)' % how)
         U.check_close(y2, wy, rt, 'make_xy_grid:aliased-state', 'y after an earlier caller modified its own copy in place (%s)' % how)
+        # the same for the other public grid makers: frequency axes and index ranges handed out earlier belong to the caller
+        from prysm.fttools import forward_ft_unit, fftrange
+        for n in sorted(set(shape)):
+            for sh in (True, False):
+                f1 = np.asarray(ctx.call(forward_ft_unit, dx, n, sh))
+                if f1.flags.writeable:
+                    f1[...] = 7.0 if how == 'zero' else f1 * 2 + 1
+                f2 = np.asarray(ctx.call(forward_ft_unit, dx, n, sh))
+                want = U.cvec(n) / (n * dx)
+                U.check_close(f2, want if sh else np.fft.ifftshift(want), 1e-5 if case['prec'] == 32 else 1e-12, 'forward_ft_unit:aliased-state',
+                              'forward_ft_unit(%g, %d, shift=%r) after an earlier caller modified the axis it had been given' % (dx, n, sh))
+            r1 = np.asarray(ctx.call(fftrange, n))
+            if r1.flags.writeable:
+                r1 += 3
+            U.check_equal(np.asarray(ctx.call(fftrange, n), dtype=float), U.cvec(n), 'fftrange:aliased-state', 'fftrange(%d) after an earlier caller modified its result' % n)
+        if case.get('consumer', False) and min(shape) >= 4:
+            # another public consumer of the same frequency axes (it edits the zero-frequency sample of the axis it is handed)
+            from prysm.interferogram import render_synthetic_surface, ab_psd
+            np.random.seed(7)
+            for n in sorted(set(shape)):
+                try:
+                    render_synthetic_surface(dx * (n - 1), n, rms=1.0, mask=None, psd_fcn=ab_psd, a=1.0, b=2.0)
+                except Exception:       # noqa - nothing is asserted about this request
+                    ctx.label('render-synthetic-surface:raised')
+                f3 = np.asarray(ctx.call(forward_ft_unit, dx, n, True))
+                ctx.require(f3[n // 2] == 0 and np.count_nonzero(f3 == 0) == 1, 'forward_ft_unit:aliased-state',
+                            'zero frequency of forward_ft_unit(%g, %d) is %r after render_synthetic_surface with the same sampling' % (dx, n, f3[n // 2]))
+            ctx.label('after-render-synthetic-surface')
         rd = RichData(np.zeros(shape), dx, 0.5)
         U.check_close(rd.x, np.broadcast_to(U.cvec(shape[1]) * dx, shape), rt, 'RichData.x:aliased-state', 'RichData.x after in-place edits of earlier grids')
         ctx.require(np.asarray(rd.x)[0, shape[1] // 2] == 0 and np.asarray(rd.y)[shape[0] // 2, 0] == 0, 'RichData:zero', 'no exact zero at n//2')
